@@ -1506,16 +1506,24 @@ class SpaceManager(SharedSpaceOperations):
             basevalue = value._impl.idstr
             for subspace in self._get_subs(space):
                 if name in subspace.own_refs:
-                    continue
-                else:
-                    subvalue = self._graph.get_relative(
-                        subspace.idstr, space.idstr,
-                        basevalue)
-                    if not subvalue:
-                        raise ValueError(
-                            "Cannot create relative reference for '%s' in '%s'"
-                            % (basevalue, subspace.idstr)
-                        )
+                    subref = subspace.own_refs[name]
+                    if subref.is_defined():
+                        continue
+                    # A derived reference takes the value unless it is
+                    # derived from a base preceding ``space`` in the MRO
+                    bases = self.get_deriv_bases(subref, defined_only=True)
+                    mro = self._graph.get_mro(subspace.idstr)
+                    if bases and (mro.index(bases[0].parent.idstr)
+                                  < mro.index(space.idstr)):
+                        continue
+                subvalue = self._graph.get_relative(
+                    subspace.idstr, space.idstr,
+                    basevalue)
+                if not subvalue:
+                    raise ValueError(
+                        "Cannot create relative reference for '%s' in '%s'"
+                        % (basevalue, subspace.idstr)
+                    )
 
     def new_ref(self, space, name, value, refmode):
 
